@@ -49,7 +49,10 @@ impl CfgGen {
         CfgGen {
             sizes,
             caps,
-            default: SymbolList::default().iter().collect(),
+            default: {
+                let d = SymbolList::default();
+                all_sizes().into_iter().filter(|s| d.contains(s)).collect()
+            },
         }
     }
 
